@@ -299,6 +299,11 @@ pub fn c19(t: &Trace, r: &mut Report) {
             if c.ss.to_bits() != want_ss.to_bits() {
                 r.fail(i, start, "stairstep", format!("note {} reported with stairstep {} instead of {}", c.note, c.ss, want_ss));
             }
+            if !c.ss.is_finite() || !c.frac.is_finite() {
+                // whatever the input was (NaN included): a record with a non-finite member reproduces nothing and its
+                // fraction lies in no interval
+                r.fail(i, start, "not-a-number", format!("convert({}) reported stairstep {} and fraction {}", v, c.ss, c.frac));
+            }
             if !v.is_nan() {
                 let sum = c.ss + c.frac;
                 let vc = v.max(0.0).min(10.0);
